@@ -4,7 +4,8 @@
 (*                                                                              *)
 (* Abstract characters:  a letter, s blank, q double quote, c comma, h '#',      *)
 (* e '=', o( c) o{ c} o[ c] the three block pairs, sl '/', at '@', bs backslash, *)
-(* nl newline, u a multibyte character, st '*', and the words owner audit deny   *)
+(* nl newline, u a multibyte character, st '*', dl '$', pc '%' (ordinary here,   *)
+(* special to template and format functions), and the words owner audit deny     *)
 (* acc (an access string) arrow ("->") tgt (a profile name), each a run of       *)
 (* ordinary characters.                                                          *)
 (*                                                                              *)
